@@ -419,7 +419,7 @@ pub fn record(args: &[String]) {
 		let p: Vec<u64> = match family {
 			"sel" | "selx" => {
 				let lo = if subject == "MadMedian" { 2 } else { 1 };
-				vec![match if zeros { 3 + rng.below(2) * 4 } else { rng.below(8) } {
+				vec![match if family == "selx" { 3 } else if zeros { 3 + rng.below(2) * 4 } else { rng.below(8) } {
 					0 => maxp - 1,
 					1 => maxp - 2,
 					2 => lo,
